@@ -21,7 +21,7 @@ ASSUMPTIONS = [
 @st.composite
 def s_case(draw):
     n = draw(st.one_of(st.sampled_from(LENGTHS + [2048, 2047]), st.integers(1, 600)))
-    x = draw(s_signal(n=n, cls="O", dts=("c",), fams=["gauss", "unif", "spike", "lead0", "smallint"]))
+    x = draw(s_signal(n=n, cls="O", dts=("c",), fams=["gauss", "unif", "spike", "lead0", "smallint", "alt", "periodic", "sym", "const"]))
     x["scale"] = draw(st.sampled_from([1.0, 1.0, 1e-6, 1e-12, 1e4]))
     return {"x": x, "gv": draw(s_gv(sps_max=64)), "gv2": draw(s_gv(sps_max=64)), "phi2": draw(st.one_of(st.floats(0, 200), st.floats(0, 3), st.just(0.0))), "sgn2": draw(st.sampled_from([1, -1])),
             "phi2b": draw(st.floats(0, 100)), "sgn2b": draw(st.sampled_from([1, -1])),
